@@ -1176,13 +1176,23 @@ func c12SelectorLabelsConditional(c *Ctx, rule string) {
 // sync.Map. A memo keyed by anything but the exact text (normalised white
 // space, say) hands one rule the syntax tree of another.
 func c12PureAnalysis(c *Ctx, rule string) {
+	pureClosure(c, rule, "query parsing and label analysis keep no package-level state", "DecodeExpr and LabelsSource",
+		"what pint concludes about one rule's query then depends on which queries were parsed before it — with a cache keyed by anything but the exact text, one rule is judged on another rule's syntax tree",
+		"internal/parser.DecodeExpr", "internal/parser/utils.LabelsSource")
+}
+
+// pureClosure: nothing reachable from the named functions writes package-level state.
+func pureClosure(c *Ctx, rule, key, what, consequence string, names ...string) {
 	p := c.P
-	roots := []*FuncInfo{p.Func("internal/parser.DecodeExpr"), p.Func("internal/parser/utils.LabelsSource")}
+	var roots []*FuncInfo
+	for _, nm := range names {
+		roots = append(roots, p.Func(nm))
+	}
 	seen := map[*FuncInfo]bool{}
 	var work []*FuncInfo
 	for _, r := range roots {
 		if r == nil {
-			c.Undecided(rule, "anchor:DecodeExpr/LabelsSource", token.NoPos, "not found")
+			c.Undecided(rule, "anchor:"+what, token.NoPos, "not found")
 			return
 		}
 		work = append(work, r)
@@ -1242,7 +1252,7 @@ func c12PureAnalysis(c *Ctx, rule string) {
 				if sel, ok := x.Fun.(*ast.SelectorExpr); ok {
 					if v := isPkgVar(sel.X); v != nil {
 						switch sel.Sel.Name {
-						case "Store", "LoadOrStore", "LoadAndDelete", "Delete", "Swap", "CompareAndSwap", "CompareAndDelete", "Clear", "Add":
+						case "Store", "LoadOrStore", "LoadAndDelete", "Delete", "Swap", "CompareAndSwap", "CompareAndDelete", "Clear", "Add", "Put", "Get":
 							bad = fi.Name + " calls " + v.Name() + "." + sel.Sel.Name
 							badPos = x.Pos()
 						}
@@ -1257,8 +1267,8 @@ func c12PureAnalysis(c *Ctx, rule string) {
 			return true
 		})
 	}
-	c.Check(bad == "", rule, "query parsing and label analysis keep no package-level state", badPos, itoa(len(seen))+" functions reachable from DecodeExpr and LabelsSource",
-		"package-level state is written on the parse/analysis path ("+bad+"): what pint concludes about one rule's query then depends on which queries were parsed before it — with a cache keyed by anything but the exact text, one rule is judged on another rule's syntax tree")
+	c.Check(bad == "", rule, key, badPos, itoa(len(seen))+" functions reachable from "+what,
+		"package-level state is written on this path ("+bad+"): "+consequence)
 }
 
 func identOf(e ast.Expr) *ast.Ident {
